@@ -59,6 +59,11 @@ type Case struct {
 	// PluginSigner: the signer is the library's plugin-backed signer around an honest in-process
 	// plugin ("raw" or "envelope" generator), created with a signer-level plugin configuration
 	PluginSigner string `json:"pluginSigner,omitempty"`
+	// MovingTag (scripted repository): what the reference names changes after it has been resolved once
+	MovingTag bool `json:"movingTag,omitempty"`
+	// TwinChain: the signer uses a re-issued twin of the usual chain: same subjects, same serial
+	// numbers, other keys (the annotations speak about the certificates actually used)
+	TwinChain bool `json:"twinChain,omitempty"`
 }
 
 var (
@@ -67,7 +72,21 @@ var (
 )
 
 func theChain() *pki.Chain {
-	once.Do(func() { chain = pki.NewChain(pki.ChainOpts{Intermediates: 1, Name: "c11"}) })
+	once.Do(func() {
+		chain = pki.NewChain(pki.ChainOpts{Intermediates: 1, Name: "c11"})
+		twin = pki.NewChain(pki.ChainOpts{Intermediates: 1, Name: "c11", SerialsOf: chain})
+	})
+	return chain
+}
+
+var twin *pki.Chain
+
+// chainOf is the chain the case's signer uses.
+func chainOf(c *Case) *pki.Chain {
+	theChain()
+	if c.TwinChain {
+		return twin
+	}
 	return chain
 }
 
@@ -128,6 +147,10 @@ type spyRepo struct {
 	pushes   []push
 	resolves []string
 	resolved []ocispec.Descriptor // pristine copies of what Resolve returned
+	// moving (scripted): the tag / digest resolves to the artifact the first time it is asked for within a
+	// signing call and to another manifest from then on (somebody re-tags while the signer works)
+	moving       bool
+	callResolves int
 }
 
 func (r *spyRepo) Resolve(ctx context.Context, ref string) (ocispec.Descriptor, error) {
@@ -137,11 +160,14 @@ func (r *spyRepo) Resolve(ctx context.Context, ref string) (ocispec.Descriptor, 
 	switch {
 	case r.inner != nil:
 		d, err = r.inner.Resolve(ctx, ref)
+	case (ref == "v1" || ref == r.retained.Digest.String()) && r.moving && r.callResolves > 0:
+		d = r.elseDesc
 	case ref == "v1" || ref == r.retained.Digest.String():
 		d = r.retained // shares the Annotations map on purpose, as caching stores do
 	default:
 		d = r.elseDesc
 	}
+	r.callResolves++
 	if err == nil {
 		r.resolved = append(r.resolved, deepCopyDesc(d))
 	}
@@ -222,7 +248,7 @@ func readIndexEntry(dir string, dg digest.Digest) (*indexEntry, error) {
 
 func run(c *Case) (string, string) {
 	ctx := context.Background()
-	ch := theChain()
+	ch := chainOf(c)
 	var inner notation.Signer
 	inner, err := signer.NewGenericSigner(ch.Leaf().Key, ch.X509())
 	if err != nil {
@@ -357,6 +383,7 @@ func run(c *Case) (string, string) {
 			before, _ = sandbox.Snapshot(dir)
 		}
 		opts := notation.SignOptions{SignerSignOptions: notation.SignerSignOptions{SignatureMediaType: c.Format, PluginConfig: cfg, SigningAgent: "c11"}, ArtifactReference: reference, UserMetadata: meta}
+		repo.moving, repo.callResolves = c.MovingTag && c.Repo == "scripted", 0
 		var theSigner notation.Signer = spy
 		if c.SignerAnn != "" {
 			theSigner = annSpySigner{spy, c.SignerAnn}
@@ -462,7 +489,7 @@ func run(c *Case) (string, string) {
 		if gotKeys != wantKeys {
 			return "C11:push:annotation-keys:" + site, fmt.Sprintf("signature manifest annotations %v", p.annotations)
 		}
-		if p.annotations["io.cncf.notary.x509chain.thumbprint#S256"] != thumbprints(theChain().Certs) {
+		if p.annotations["io.cncf.notary.x509chain.thumbprint#S256"] != thumbprints(chainOf(c).Certs) {
 			return "C11:push:thumbprints:" + site, p.annotations["io.cncf.notary.x509chain.thumbprint#S256"]
 		}
 		st, _, terr := envelopeSigningTime(c.Format, p.blob)
@@ -545,6 +572,8 @@ func TestC11_Sequences(t *testing.T) {
 		c.Ref = rp.Pick(rt, "ref", "tag", "tag", "digest", "full-tag", "full-digest", "digest-elsewhere")
 		c.SignerAnn = rp.Pick(rt, "signerAnnotations", "", "", "disjoint", "clashing", "clashing")
 		c.PluginSigner = rp.Pick(rt, "pluginSigner", "", "", "raw", "envelope", "envelope-drops-annotations")
+		c.MovingTag = c.Repo == "scripted" && rapid.IntRange(0, 2).Draw(rt, "movingTag") == 0
+		c.TwinChain = rapid.Bool().Draw(rt, "twinChain")
 		if c.Ref == "digest-elsewhere" && c.Repo != "scripted" {
 			c.Ref = "tag"
 		}
@@ -569,6 +598,9 @@ func TestC11_Sequences(t *testing.T) {
 		}
 		if c.PluginSigner != "" {
 			cl = append(cl, "plugin-backed-signer="+c.PluginSigner)
+		}
+		if c.MovingTag {
+			cl = append(cl, "reference-moves-after-first-resolve")
 		}
 		rec.Case(cl, len(c.ArtAnn) > 0 || c.Calls >= 2, stats.Fingerprint(fmt.Sprintf("%+v", *c)), func() any { return c })
 		key, msg := run(c)
